@@ -46,7 +46,7 @@ CONFIGS = {
 SAN_ENV = {
     "ASAN_OPTIONS": "abort_on_error=1:detect_leaks=0:handle_abort=1:detect_stack_use_after_return=0:allocator_may_return_null=1",
     "UBSAN_OPTIONS": "print_stacktrace=1:halt_on_error=1",
-    "TSAN_OPTIONS": "halt_on_error=0:exitcode=0:report_signal_unsafe=0:history_size=4:second_deadlock_stack=0",
+    "TSAN_OPTIONS": "halt_on_error=0:exitcode=0:report_signal_unsafe=0:history_size=4:second_deadlock_stack=0:suppress_equal_addresses=0",
 }
 
 
